@@ -2323,12 +2323,20 @@ class HelicalLattice(Lattice):
     def save_hdf5(self, hdf5_saver, h5gr, subpath):
         super().save_hdf5(hdf5_saver, h5gr, subpath)
         hdf5_saver.save(self.regular_lattice, subpath + 'regular_lattice')
-        h5gr.attrs['N_unit_cells'] = self.N_sites
+        h5gr.attrs['N_unit_cells'] = self._N_cells
 
     @classmethod
     def from_hdf5(cls, hdf5_loader, h5gr, subpath):
-        obj = super().from_hdf5(hdf5_loader, h5gr, subpath)
-        obj._N_cells = hdf5_loader.get_attr(h5gr, 'N_unit_cells')
+        # `_set_Ls` and the `order` setter need `_N_cells` and `regular_lattice`,
+        # so we can not use `Lattice.from_hdf5` here; re-initialize instead.
+        regular_lattice = hdf5_loader.load(subpath + 'regular_lattice')
+        N_unit_cells = int(hdf5_loader.get_attr(h5gr, 'N_unit_cells'))
+        obj = cls(regular_lattice, N_unit_cells)
+        hdf5_loader.memorize_load(h5gr, obj)
+        obj.order = hdf5_loader.load(subpath + 'order_for_MPS')  # property setter!
+        if 'position_disorder' in h5gr:
+            obj.position_disorder = hdf5_loader.load(subpath + 'position_disorder')
+        obj.test_sanity()
         return obj
 
     def ordering(self, order):
